@@ -1031,6 +1031,11 @@ theorem accepted_fk (T : ColT) (hT : fkToInt T) (x y : PyVal) (hk : knownBad T x
     subst h
     have h64 : int64 i = true := by simp [knownBad, hil] at hk; exact hk.1
     exact readable_of _ _ _ _ (.int i) (roundtrip_int _ _ (Or.inl ha) h64) (hpy _) (norm_refl _ _)
+  · -- a float is never accepted by the model: fractional / nan / inf are refused, the others not interpreted
+    rename_i t
+    cases t with
+    | lit t => simp only [fkFromPython] at h; split at h <;> simp at h
+    | ofInt i => simp [fkFromPython] at h
   · rename_i s
     cases hi : intText s with
     | none => simp [hi] at h; split at h <;> simp at h
